@@ -24,8 +24,12 @@ class SerializeTraits<::std::unique_ptr<T>>
       SerializeTraits<MutableType>::SERIALIZABLE;
   static constexpr bool SERIALIZED_SIZE_CACHED =
       SerializeTraits<MutableType>::SERIALIZED_SIZE_CACHED;
+  // 空指针序列化为空，因此即使目标类型是TRIVIAL，指针的大小也不是固定值
   static constexpr int SERIALIZED_SIZE_COMPLEXITY =
-      SerializeTraits<MutableType>::SERIALIZED_SIZE_COMPLEXITY;
+      SerializeTraits<MutableType>::SERIALIZED_SIZE_COMPLEXITY ==
+              SerializationHelper::SERIALIZED_SIZE_COMPLEXITY_TRIVIAL
+          ? SerializationHelper::SERIALIZED_SIZE_COMPLEXITY_SIMPLE
+          : SerializeTraits<MutableType>::SERIALIZED_SIZE_COMPLEXITY;
   static constexpr WireType WIRE_TYPE = SerializeTraits<MutableType>::WIRE_TYPE;
   static constexpr bool PRINT_AS_OBJECT =
       SerializeTraits<MutableType>::PRINT_AS_OBJECT;
